@@ -12,7 +12,9 @@ RULE = (
     "and loaded each time (load needs a descriptor for mmap). Oracle: load raises (any exception type); "
     "returning anything is the violation. Evaluations = loads of torn files. Non-trivial = cut points k >= 16 "
     "(past the fixed header, where only the recorded payload size protects); distinct by (file digest, k), "
-    "counted per file as len-16."
+    "counted per file as len-16. cuts_other_words: the same enumeration over files laid out by the independent "
+    "encoder in the other documented word sizes (1/2/8-byte row-id words, index words wider than needed), because a "
+    "reader may treat non-32-bit row ids on a separate path."
 )
 ASSUMPTIONS = [
     "a torn write leaves a strict prefix of the intended file (the fault model of the property)",
@@ -51,7 +53,51 @@ def check(case, rec):
     rec.distinct_by_construction += max(0, n - 16) - 1
 
 
+def other_word_cases(tier):
+    from hypothesis import strategies as st
+
+    from . import c11
+
+    return c11.reader_cases(12 if tier == "quick" else 40, 30)
+
+
+def check_other_words(case, rec):
+    """Torn files in the other documented word sizes (1/2/8-byte row-id words, wider index words)."""
+    from catii.indxio import IndxIO
+
+    from .. import indxref as R
+
+    data = R.ref_encode(G.case_list(case), case["common"], iw=case["iw"], rw=case["rw"])
+    path = os.path.join(G.scratch_dir(), "c12w.indx")
+    with open(path, "wb") as f:
+        f.write(data)
+    n = len(data)
+    with open(path, "rb") as f:
+        with libcall("IndxIO.load(complete reference file iw=%d rw=%d)" % (case["iw"], case["rw"])):
+            IndxIO.load(f)
+    with open(path, "r+b") as f:
+        for k in range(n - 1, -1, -1):
+            os.ftruncate(f.fileno(), k)
+            f.seek(0)
+            try:
+                out = IndxIO.load(f)
+            except Exception:
+                continue
+            desc = "%d entries" % len(out[0]) if isinstance(out, tuple) else repr(out)
+            del out
+            raise Violation("load() of the first %d of %d bytes of a file with %d-byte row-id words returned (%s) "
+                            "instead of raising" % (k, n, case["rw"], desc), sig="torn file accepted (rw=%d)" % case["rw"])
+    rec.count("torn_loads", n)
+    rec.note("rw=%d" % case["rw"], "iw=%d" % case["iw"])
+    rec.evaluations += n - 1
+    if case["rw"] != 4:
+        rec.nontrivial()
+        rec.distinct_by_construction += max(0, n - 16) - 1
+
+
 SUBS = [
+    Sub("cuts_other_words", check_other_words, strategy=other_word_cases,
+        examples={"quick": 600, "thorough": 15000}),
     Sub("cuts", check, strategy=lambda tier: G.indx_cases(40 if tier == "quick" else 200,
                                                          50 if tier == "quick" else 300),
         examples={"quick": 1600, "thorough": 30000}, exhaustive=False),
